@@ -42,8 +42,16 @@ HhChecks(e) ==
 \* C06 / C19: nonce = 4 zero bytes ++ LE64(counter) for every counter value
 NonceChecks(e) == Flag(e.res = "ok" /\ e.same /\ e.opens, "C19_counter_nonce_layout_differs_from_specification")
 
+\* C08: size formula; cleartext fields equal for two identity pairs; no identity in the file
+ClearChecks(e) ==
+  Flag(e.ok /\ e.framing_ok, "C08_file_is_not_header_plus_records")
+  \cup Flag(e.ok => (e.flen = e.H + 32 * e.nrec + e.plen /\ e.flen_b = e.flen), "C08_size_differs_from_formula")
+  \cup Flag(e.ok => e.clear_equal, "C08_cleartext_depends_on_identities")
+  \cup Flag(e.ok => ~e.identity_found, "C08_identity_appears_in_file")
+
 Checks(e) ==
   CASE e.ev = "hs"     -> HsChecks(e) \cup HsFormat(e)
+    [] e.ev = "clear"  -> ClearChecks(e)
     [] e.ev = "golden" -> GoldenChecks(e)
     [] e.ev = "hh"     -> HhChecks(e)
     [] e.ev = "nonce"  -> NonceChecks(e)
